@@ -140,7 +140,8 @@ def _check_artefacts(mode):
             rng = np.random.default_rng(3)
             for shape in ((1,), (3,), (2, 2), (1, 3), (2, 1, 2)):
                 for arr in (rng.normal(size=shape), rng.normal(size=shape) + 1j * rng.normal(size=shape), np.zeros(shape), np.zeros(shape, dtype=complex), 1j * np.ones(shape),
-                            np.arange(int(np.prod(shape))).reshape(shape)):
+                            np.arange(int(np.prod(shape))).reshape(shape), (3e-9 + 4e-9j) * np.ones(shape), 1e-12j * rng.normal(size=shape) + rng.normal(size=shape),
+                            1e-300 * np.ones(shape), (1e15 + 1e-9j) * np.ones(shape)):
                     back = convert_dict_to_array(json.loads(json.dumps(convert_array_to_dict(arr))))
                     if back.shape != arr.shape or not np.array_equal(back, arr):
                         return False, f"array {arr.tolist()} -> dict -> array = {back.tolist()}"
@@ -150,7 +151,8 @@ def _check_artefacts(mode):
             fr_r = [np.array([[1.0, 0.5, 0], [0.5, 1, 0], [0, 0, 1]])]
             fr_2 = [np.eye(2), np.array([[2.0]])]
             fr_c = [np.array([[1, 1j, 0], [-1j, 1, 0], [0, 0, 1]])]
-            frames = [None, [], fr_r, fr_2, fr_c]
+            fr_t = [np.array([[3e-9 + 4e-9j, 1e-10j], [-1e-10j, 2e-9]])]     # e.g. estimator covariances for ~1e8 shots
+            frames = [None, [], fr_r, fr_2, fr_c, fr_t]
             for vals in (vals_r, vals_c, np.array([1.5])):
                 for corr, cov in itertools.product(frames, repeat=2):
                     ev = ExpectationValues(vals, corr, cov)
